@@ -1,9 +1,12 @@
 // c06_ns - bounded-exhaustive exploration of namespace processing (property C06).
-//   --space one|two|three|sib : products of per-element "shapes" (prefix x declaration subset x attributes x placement)
-//   --space ladder            : 15..66 prefix declarations on one element / across nesting / >100 attributes (map growth, hashed dup check)
-//   --space witness           : the minimal repro documents of the KNOWN_DEFECTS list, checked strictly
-//   --space build             : DOM trees built through createElementNS/setAttributeNS (no parser), <= k steps
-// Oracles: c06_model.hpp (own scoping stack, Appendix B lookups) and expat in namespace mode (XML 1.0 documents).
+// One process runs a PLAN of parts: --space multi --parts "p1,p2,..." (or a single part the classic way: --space one --l1 mid ...)
+//   one:<A>[:v11] | two:<A>:<B>[:v11] | three:<A>:<B>:<C> | sib:<A>:<B>:<C>
+//                      products of per-element "shapes" (prefix x declaration subset x attributes x placement); A,B,C = shape alphabets, see lod()
+//   ladder:quick|full  15..73 prefix declarations on one element / along a nesting chain / root x child, 31..130 attributes with collisions
+//   build:<k>          DOM trees built through createElementNS/setAttributeNS/... (no parser), all programs of <= k steps
+//   witness            the minimal repro of every KNOWN_DEFECTS entry, checked strictly
+// Oracles: c06_model.hpp (own scoping stack, DOM L3 Appendix B lookups) and expat in namespace mode (XML 1.0 documents).
+// --only <idx> replays one case verbosely, --print <idx> shows it, --disc 1 adds per-configuration discrepancy counters, --strict 1 disables KNOWN_DEFECTS.
 #include "xv_xml.hpp"
 #include "c06_model.hpp"
 using namespace xv;
